@@ -17,7 +17,7 @@ for fn in sorted(os.listdir(os.path.join(HARNESS, "props"))):
         try:
             ctx = core.Ctx(mod.ID, "quick", 0)
             with core.LakeLock():
-                ch = core.write_gen(mod.extract(ctx))
+                ch = core.write_gen(core.extract_files(mod, ctx))
             print("regen %s: %s" % (mod.ID, ch or "unchanged"))
         except Exception:
             traceback.print_exc()
